@@ -156,6 +156,10 @@ def render_block(stmts, em):
             em.code("%s = %s(%s)" % (s[1], s[2], rx(s[3])))
         elif k == "mcall":
             em.code("%s = %s.mk(%s)" % (s[1], s[2], rx(s[3])))
+        elif k == "fieldset":
+            em.code("%s.v = %s" % (s[1], rx(s[2])))
+        elif k == "fieldprint":
+            em.code("print %s.v" % s[1])
         elif k == "fetch":
             em.code("%s = %s[%d]" % (s[1], s[2], s[3]))
         elif k == "mklist":
@@ -203,7 +207,7 @@ class Closure:
 
 class Obj:
     def __init__(self, cls, v):
-        self.cls, self.v = cls, v
+        self.cls, self.vcell = cls, Cell(v)
 
 
 class Ret(Exception):
@@ -386,19 +390,26 @@ class Model:
         elif k == "tblset":
             fr.cell("tbl").v[s[1]] = self.ev(s[2], fr)
         elif k == "class":
-            self.classes[s[1]] = (s[2], s[3], fr.snapshot())
+            self.classes[s[1]] = (s[2], s[3], fr.snapshot(), len(s) > 4 and s[4])
         elif k == "new":
             self.declare(fr, s[1], Obj(s[2], self.ev(s[3], fr)))
         elif k == "mcall":
             o = fr.cell(s[2]).v
-            ret, body, env = self.classes[o.cls]
-            mfr = Frame(env, {"p": Cell(self.ev(s[3], fr)), "fv": Cell(o.v)})
+            ret, body, env, bare = self.classes[o.cls]
+            if bare:
+                env = dict(env)
+                env["v"] = o.vcell
+            mfr = Frame(env, {"p": Cell(self.ev(s[3], fr)), "fv": Cell(o.vcell.v)})
             try:
                 self.block(body, mfr)
                 res = None
             except Ret as r:
                 res = r.v
             self.declare(fr, s[1], res)
+        elif k == "fieldset":
+            fr.cell(s[1]).v.vcell.v = self.ev(s[2], fr)
+        elif k == "fieldprint":
+            self.out.append(str(fr.cell(s[1]).v.vcell.v))
         elif k == "fetch":
             self.declare(fr, s[1], fr.cell(s[2]).v[s[3]])
         elif k == "mklist":
@@ -517,6 +528,11 @@ def free_names(params, body):
             elif k == "tblset":
                 used.add("tbl")
                 names_in_expr(s[2], used)
+            elif k == "fieldset":
+                used.add(s[1])
+                names_in_expr(s[2], used)
+            elif k == "fieldprint":
+                used.add(s[1])
             elif k == "repeat":
                 used.add(s[1])
             elif k == "mapcall":
@@ -707,6 +723,8 @@ class Gen:
                 forms.append(("optnset", 2))
             if allow_nested and depth < 3:
                 forms.append(("nested", 3))
+                if ret == "fn1":
+                    forms.append(("blockret", 3))
             if self.of_type(sc, "fnlist", own_only=True) is not None and depth < 3 and allow_nested:
                 forms.append(("loopmake", 1))
             k = rng.weighted(forms)
@@ -759,6 +777,17 @@ class Gen:
                 n = rng.choice(cap_i)
                 stmts.append(["shadow", n, self.bounded(self.int_expr(sc, 1))])
                 sc.own[n] = "int"
+            elif k == "blockret":
+                # if <cond> { bv = e ; h = fn(d) {.. bv ..} ; return h }: the variable lives in the block, the function returns
+                # from inside it; every execution of the block makes a fresh bv
+                bv, n = self.name("bv"), self.name("h")
+                bsc = _with(sc, {bv: "int"})
+                isc = Scope(bsc)
+                isc.own["d"] = "int"
+                b = self.body(isc, depth + 1, "int", allow_nested=False)
+                b.insert(1, ["mod", bv, ["%", ["+", ["v", bv], ["v", "d"]], M]])
+                stmts.append(["if", self.cond(sc) if rng.chance(1, 2) else ["cmp", "==", ["i", 1], ["i", 1]],
+                              [["decl", bv, "int", self.int_expr(sc, 1)], ["def", n, [["d", "int"]], "int", b], ["retfn", n]], []])
             elif k == "nested":
                 n = self.name("h")
                 isc = Scope(sc)
@@ -873,11 +902,19 @@ def generate(rng, max_ops=12):
             factories.append((n, ret))
         else:
             cn = g.name("K")
-            sc = Scope(top)
+            bare = rng.chance(1, 2)
+            if bare:
+                # the method (and the closures it creates) may name the field `v` of its object without `self.`: to them it
+                # is a captured variable, shared with `ob.v` as the owner sees it
+                fsc = Scope(top)
+                fsc.own["v"] = "int"
+                sc = Scope(fsc)
+            else:
+                sc = Scope(top)
             sc.own["p"] = "int"
             sc.own["fv"] = "int"
             ret = rng.choice(["fn1", "fnlist"])
-            prog.append(["class", cn, ret, g.body(sc, 1, ret)])
+            prog.append(["class", cn, ret, g.body(sc, 1, ret), bare])
             classes.append((cn, ret))
     # a module-level variable of function type that closures re-point (modify) and call
     holders = []
@@ -896,7 +933,7 @@ def generate(rng, max_ops=12):
     # history
     nops = rng.range(4, max_ops)
     focus = rng.sample(["holder", "isclosure", "mklist", "mapcall", "filtcall", "repeat", "assign", "make", "remake", "new", "mcall",
-                        "fetch", "pushlist", "assign_s", "tblset", "assign_optn"], 3) if rng.chance(1, 2) else []
+                        "fetch", "pushlist", "assign_s", "tblset", "assign_optn", "fieldset", "fieldprint"], 3) if rng.chance(1, 2) else []
     hist = []
     objs = []
     made = []       # (variable, factory) pairs: variables that hold a factory product
@@ -919,6 +956,8 @@ def generate(rng, max_ops=12):
             choices.append(("new", 2))
         if objs:
             choices.append(("mcall", 4))
+            choices.append(("fieldset", 2))
+            choices.append(("fieldprint", 2))
         if lists:
             choices.append(("fetch", 4))
         if g.of_type(top, "list"):
@@ -978,6 +1017,10 @@ def generate(rng, max_ops=12):
             n = g.name("ob")
             prog.append(["new", n, cn, ["i", rng.range(0, 9)]])
             objs.append((n, ret))
+        elif k == "fieldset":
+            prog.append(["fieldset", rng.choice(objs)[0], ["i", rng.range(0, 9)]])
+        elif k == "fieldprint":
+            prog.append(["fieldprint", rng.choice(objs)[0]])
         elif k == "mcall":
             on, ret = rng.choice(objs)
             n = g.name("h" if ret == "fn1" else "l")
@@ -1000,6 +1043,8 @@ def generate(rng, max_ops=12):
             n = g.name("l")
             prog.append(["mklist", n, [rng.choice(fns), rng.choice(fns)]])
             top.own[n] = "fnlist"
+    for on, _ in objs:
+        prog.append(["fieldprint", on])
     # final observation of all module-level data variables
     for n, t in sorted(top.own.items()):
         if t in ("int", "str", "list", "opt", "optn") and n != "tbl":
